@@ -109,12 +109,12 @@ def catalogue(rng):
             return dict(target=t, path=["data", "add_offset_from_array"], args=[T([arr([1.0, 2.0]), arr(["a"]), "x", NONE, arr([[1.0]])])],
                         expect="any")
         if k == "add_lin_from":
-            return dict(target=t, path=["add_linear_from"], args=[T([[["a"]], [["a", 1, 2]], 5, [["a", "x"]], ["#", "dict", [["a", NONE]]]])],
-                        expect="raise")
+            bad = T([[["a"]], [["a", 1, 2]], 5] + ([] if t == "bqmobj" else [[["a", "x"]], ["#", "dict", [["a", NONE]]]]))
+            return dict(target=t, path=["add_linear_from"], args=[bad], expect="raise")
         if k == "add_quad_from":
-            return dict(target=t, path=["add_quadratic_from"], args=[T([[["a", "b"]], ["#", "dict", [[tup("a", "a"), 1]]], 5,
-                                                                       ["#", "dict", [[tup("a",), 1]]], ["#", "dict", [[tup("a", "b"), "x"]]]])],
-                        expect="raise")
+            bad = T([[["a", "b"]], ["#", "dict", [[tup("a", "a"), 1]]], 5, ["#", "dict", [[tup("a",), 1]]]]
+                    + ([] if t == "bqmobj" else [["#", "dict", [[tup("a", "b"), "x"]]]]))
+            return dict(target=t, path=["add_quadratic_from"], args=[bad], expect="raise")
         if k == "contract":
             return dict(target=t, path=["contract_variables"], args=[T(UNKNOWN), "a"], expect="raise")
         if k == "flip":
@@ -205,7 +205,9 @@ def catalogue(rng):
             return dict(target=t, path=[T(["set_lower_bound", "set_upper_bound"])], args=[T(["x", "s", "i", "r"]), T(BAD_SCALARS + ODD_NUMBERS + [0.5, -100, 100])],
                         expect="any")
         if k == "chvt":
-            return dict(target=t, path=["change_vartype"], args=[T(["SPIN", "BINARY", "REAL", "NOPE", NONE]), T(["i", "r", "nope"])], expect="raise")
+            vt, v = T([("SPIN", "i"), ("BINARY", "i"), ("REAL", "i"), ("SPIN", "r"), ("BINARY", "r"), ("INTEGER", "r"),
+                       ("NOPE", "i"), (NONE, "r"), ("SPIN", "nope"), ("INTEGER", "nope"), ("NOPE", "nope")])
+            return dict(target=t, path=["change_vartype"], args=[vt, v], expect="raise")
         if k == "selfloop":
             return dict(target=t, path=["set_quadratic"], args=[T(["x", "s"]), T(["x", "s"])[0:1][0], 1.0], expect="any")
         if k == "badbias":
@@ -284,7 +286,8 @@ def catalogue(rng):
         if k == "relabel_con":
             return dict(target=t, path=["relabel_constraints"], args=[["#", "dict", [["c0", "c1"]]]], expect="raise")
         if k == "discrete":
-            return dict(target=t, path=["add_discrete"], args=[T([["x", "y"], ["d0", "n1"], ["i", "n2"], ["s", "n3"], 5, [["a"], ["b"]]])],
+            # d0 is already in a discrete constraint, i is INTEGER, s is SPIN: never legal, whatever the label
+            return dict(target=t, path=["add_discrete"], args=[T([["d0", "n1"], ["i", "n2"], ["s", "n3"], 5, [["a"], ["b"]]])],
                         kwargs={"label": T(["dd", "disc"])}, expect="raise")
         if k == "discrete2":
             return dict(target=t, path=["add_discrete"], args=[["n1", "n2"]], kwargs={"label": "c0"}, expect="raise")
@@ -310,6 +313,8 @@ def catalogue(rng):
         if k == "obj_unknown":
             return dict(target=t, path=["objective", T(["add_linear", "set_linear", "get_linear"])], args=[T(UNKNOWN[:5]), 1.0], expect="raise")
         return dict(target=t, path=lhs + ["energy"], args=[["#", "dict", [["x", 1]]]], expect="raise")
+    if fam == "dqm" and rng.random() < 0.5:
+        return dqm_case_call(rng)
     if fam == "dqm":
         t = "dqm"
         k = T(["addvar", "lin_case", "lin_case_get", "set_linear", "quad_case", "quad_case_get", "quad_self", "quad_shape", "quad_dict",
@@ -388,6 +393,80 @@ def catalogue(rng):
         return dict(target=t, path=["@cls", "from_numpy_vectors"], args=[cs, lb, q], expect="raise")
     q = T([tup([0.5], [4], [1.0]), tup(["a"], ["b"], [1.0]), tup([0], [4], ["x"]), 5, NONE, tup([0], [4], [NAN])])
     return dict(target=t, path=["@cls", "from_numpy_vectors"], args=[T([cs, "abc", NONE]), T([lb, "x", [1.0]]), q], expect="any")
+
+
+# the child's DQM fixture: variables with DIFFERENT numbers of cases
+DQM_CASES = {"u": 3, "v": 2, "w": 4}
+
+
+def dqm_case_call(rng):
+    """case-index handling of the DQM for an ordered pair of variables with different case counts:
+    exactly one out-of-range / negative case (must raise, model unchanged) or a valid call at the
+    upper boundary of both variables (must be accepted and read back)."""
+    T = rng.choice
+    a, b = rng.sample(sorted(DQM_CASES), 2)
+    na, nb = DQM_CASES[a], DQM_CASES[b]
+    top = max(DQM_CASES.values())
+
+    def bad(n):
+        # includes the values that are valid for ANOTHER variable but not for this one
+        return T([-1, -2, n, n + 1] + [x for x in range(n, top + 1)] + [top + 1, 100])
+
+    def good(n):
+        return T([0, n - 1, n - 1, rng.randrange(n)])
+    form = T(["dict", "dict", "dict", "array", "qcase", "qcase_get", "lcase", "lcase_get"])
+    valid = rng.random() < 0.4
+    bias = T([2.5, -1.25, 7.0, 0.5])
+    if form in ("lcase", "lcase_get"):
+        if valid:
+            ca = good(na)
+            if form == "lcase":
+                return dict(target="dqm", path=["set_linear_case"], args=[a, ca, bias], expect="ok",
+                            readback={"path": ["get_linear_case"], "args": [a, ca], "value": str(Fraction_s(bias))})
+            return dict(target="dqm", path=["get_linear_case"], args=[a, ca], expect="ok")
+        ca = bad(na)
+        if form == "lcase":
+            return dict(target="dqm", path=["set_linear_case"], args=[a, ca, bias], expect="raise")
+        return dict(target="dqm", path=["get_linear_case"], args=[a, ca], expect="raise")
+    if valid:
+        ca, cb = good(na), good(nb)
+    elif rng.random() < 0.5:
+        ca, cb = bad(na), good(nb)
+    else:
+        ca, cb = good(na), bad(nb)
+    rb = {"path": ["get_quadratic_case"], "args": [a, ca, b, cb], "value": str(Fraction_s(bias))}
+    if form == "dict":
+        call = dict(target="dqm", path=["set_quadratic"], args=[a, b, ["#", "dict", [[tup(ca, cb), bias]]]])
+    elif form == "qcase":
+        call = dict(target="dqm", path=["set_quadratic_case"], args=[a, ca, b, cb, bias])
+    elif form == "qcase_get":
+        call = dict(target="dqm", path=["get_quadratic_case"], args=[a, ca, b, cb])
+        rb = None
+    else:
+        # dense form: shape must be (num_cases(a), num_cases(b)); the transposed / off-by-one shapes are invalid
+        if valid:
+            mat = [[0.0] * nb for _ in range(na)]
+            mat[ca][cb] = bias
+            call = dict(target="dqm", path=["set_quadratic"], args=[a, b, arr(mat, "float64")])
+        else:
+            # the dense form reshapes its argument to (num_cases(a), num_cases(b)): an array with the right
+            # number of elements (e.g. the transposed matrix) is accepted by design, any other size must raise
+            shape = T([(nb, na), (na, nb + 1), (na + 1, nb), (na - 1, nb), (na, nb - 1)])
+            mat = [[1.0] * shape[1] for _ in range(shape[0])]
+            return dict(target="dqm", path=["set_quadratic"], args=[a, b, arr(mat, "float64")],
+                        expect="any" if shape[0] * shape[1] == na * nb else "raise")
+    if valid:
+        call["expect"] = "ok"
+        if rb:
+            call["readback"] = rb
+    else:
+        call["expect"] = "raise"
+    return call
+
+
+def Fraction_s(x):
+    from fractions import Fraction
+    return Fraction(float(x))
 
 
 def gen_py_calls(rng, n):
@@ -515,4 +594,10 @@ def judge(call, rec):
         return "an invalid argument was accepted without an exception" + ("" if rec.get("same", True) else " and changed the model"), "accepted"
     if rec.get("exc") in ("SystemError", "RecursionError"):
         return f"{rec['exc']}: {rec.get('msg')}", "bad_exception"
+    if call.get("expect") == "ok":
+        if rec.get("exc") is not None:
+            return f"a valid call was rejected with {rec['exc']}: {rec.get('msg')}", "rejected"
+        rb = call.get("readback")
+        if rb and rec.get("readback") != rb["value"]:
+            return f"the value written by a valid call reads back as {rec.get('readback')} instead of {rb['value']}", "readback"
     return None
